@@ -58,6 +58,7 @@ func TestVerifC33bConformance(t *testing.T) {
 
 		"VerifC33bInterrupted":      VerifC33bInterrupted,
 		"VerifC33bForeign":          VerifC33bForeign,
+		"VerifC33bObstacle":         VerifC33bObstacle,
 		"VerifC33bInterruptedTwice": VerifC33bInterruptedTwice,
 	}
 	tmp := t.TempDir()
